@@ -27,6 +27,7 @@ type toolPlan struct {
 	Outcome string `json:"outcome"` // ok | issues | empty | crash | signal | garbage
 	DelayMs int    `json:"delay_ms"`
 	N       int    `json:"n"`
+	Gated   bool   `json:"gated"` // wait for the file release-<tok> before finishing (scheduler gate)
 }
 
 type toolLog struct {
@@ -71,6 +72,15 @@ func toolMain(args []string) error {
 	}
 	appendLog(dir, toolLog{Ev: "start", Tok: tok, Kind: kind, Pid: os.Getpid(), T: t0, Argv: args[2:], Stdin: string(in)})
 	time.Sleep(time.Duration(plan.DelayMs) * time.Millisecond)
+	if plan.Gated {
+		rel := filepath.Join(dir, "release-"+tok)
+		for i := 0; i < 40000; i++ {
+			if _, err := os.Stat(rel); err == nil {
+				break
+			}
+			time.Sleep(500 * time.Microsecond)
+		}
+	}
 	appendLog(dir, toolLog{Ev: "end", Tok: tok, Kind: kind, Pid: os.Getpid(), T: time.Now().UnixNano()})
 	switch plan.Outcome {
 	case "ok":
@@ -142,6 +152,165 @@ type poolScenario struct {
 	NoStart   string              `json:"nostart"` // "", "sc" or "py": that tool cannot be started
 	HookDelay int                 `json:"hook_delay_us"`
 	Single    bool                `json:"single"` // use LintFile on the only file
+	// Schedule, when present, is a TLC behaviour of ProcPool projected on the hooked actions: the
+	// hooks block until the controller grants them in this order (binding S).
+	Schedule []gateStep `json:"schedule,omitempty"`
+}
+
+type gateStep struct {
+	Ev string `json:"ev"`
+	F  int    `json:"f"`
+	I  int    `json:"i"`
+}
+
+// gate forces the order of the operations of the pool onto the real goroutines. A hook point that
+// PRECEDES an operation (go -> Acquire, start -> process start, rel -> Release, done -> wg.Done, add ->
+// the next Run of the same file) is a hold: the goroutine blocks there until the controller releases
+// it at the step of the behaviour that performs the operation. Hook points that FOLLOW an operation
+// (acq, exit, rwait, pwait) pass through and only confirm to the controller that the step happened.
+type gate struct {
+	mu       sync.Mutex
+	waiting  map[string]chan struct{}
+	occurred map[string]bool
+	notify   chan struct{}
+	free     bool
+	fileGid  map[int]int
+	rwCount  map[int]int
+	stuck    string
+	steps    int
+}
+
+func newGate() *gate {
+	return &gate{waiting: map[string]chan struct{}{}, occurred: map[string]bool{}, notify: make(chan struct{}, 4096),
+		fileGid: map[int]int{}, rwCount: map[int]int{}}
+}
+
+var gateHolds = map[string]bool{"go": true, "start": true, "rel": true, "done": true, "add": true}
+
+func (g *gate) arrive(kind, tok string, gid int) {
+	g.mu.Lock()
+	key := kind + ":" + tok
+	switch kind {
+	case "add":
+		var f, i int
+		if _, err := fmt.Sscanf(tok, "F%dT%d", &f, &i); err == nil {
+			g.fileGid[f] = gid
+		}
+	case "rwait":
+		g.rwCount[gid]++
+		key = fmt.Sprintf("rwait:g%d:%d", gid, g.rwCount[gid])
+	case "pwait":
+		key = "pwait"
+	}
+	g.occurred[key] = true
+	var ch chan struct{}
+	if gateHolds[kind] && !g.free {
+		ch = make(chan struct{})
+		g.waiting[key] = ch
+	}
+	g.mu.Unlock()
+	select {
+	case g.notify <- struct{}{}:
+	default:
+	}
+	if ch != nil {
+		<-ch
+	}
+}
+
+func (g *gate) releaseAll() {
+	g.mu.Lock()
+	g.free = true
+	for k, ch := range g.waiting {
+		close(ch)
+		delete(g.waiting, k)
+	}
+	g.mu.Unlock()
+}
+
+func (g *gate) key(ev string, f, i int) string {
+	switch ev {
+	case "rwait":
+		g.mu.Lock()
+		gid, ok := g.fileGid[f]
+		g.mu.Unlock()
+		if !ok {
+			return "rwait:unknown"
+		}
+		return fmt.Sprintf("rwait:g%d:%d", gid, i)
+	case "pwait":
+		return "pwait"
+	}
+	return fmt.Sprintf("%s:F%dT%d", ev, f, i)
+}
+
+// await blocks until the point has been reached by its goroutine
+func (g *gate) await(key string, timeout time.Duration) bool {
+	deadline := time.Now().Add(timeout)
+	for {
+		g.mu.Lock()
+		ok := g.occurred[key]
+		g.mu.Unlock()
+		if ok {
+			return true
+		}
+		if time.Now().After(deadline) {
+			g.mu.Lock()
+			g.stuck = "await " + key
+			g.mu.Unlock()
+			return false
+		}
+		select {
+		case <-g.notify:
+		case <-time.After(time.Millisecond):
+		}
+	}
+}
+
+// open releases a held point (waiting for its arrival first)
+func (g *gate) open(key string, timeout time.Duration) bool {
+	if !g.await(key, timeout) {
+		return false
+	}
+	g.mu.Lock()
+	if ch, ok := g.waiting[key]; ok {
+		close(ch)
+		delete(g.waiting, key)
+	}
+	g.mu.Unlock()
+	return true
+}
+
+// step performs one step of the behaviour on the real code
+func (g *gate) step(st gateStep, dir string, lastOfFile map[int]int, to time.Duration) bool {
+	ok := true
+	switch st.Ev {
+	case "add":
+		// the hook sits between wg.Add and eg.Go: releasing it launches the task's goroutine and lets the
+		// visiting goroutine of the file go on to its next step
+		ok = g.open(g.key("add", st.F, st.I), to)
+	case "go":
+		ok = g.await(g.key("go", st.F, st.I), to)
+	case "acq":
+		ok = g.open(g.key("go", st.F, st.I), to) && g.await(g.key("acq", st.F, st.I), to)
+	case "start":
+		ok = g.open(g.key("start", st.F, st.I), to)
+	case "exit":
+		os.WriteFile(filepath.Join(dir, fmt.Sprintf("release-F%dT%d", st.F, st.I)), []byte("go"), 0o644)
+		ok = g.await(g.key("exit", st.F, st.I), to)
+	case "rel":
+		ok = g.open(g.key("rel", st.F, st.I), to)
+	case "done":
+		ok = g.open(g.key("done", st.F, st.I), to)
+	case "rwait", "pwait":
+		ok = g.await(g.key(st.Ev, st.F, st.I), to)
+	}
+	if ok {
+		g.mu.Lock()
+		g.steps++
+		g.mu.Unlock()
+	}
+	return ok
 }
 
 type poolEvent struct {
@@ -166,6 +335,8 @@ type poolResult struct {
 	Tool     []toolLog           `json:"tool"`
 	Scripts  map[string]string   `json:"scripts"`
 	Panic    string              `json:"panic,omitempty"`
+	Stuck    string              `json:"gate_stuck,omitempty"` // schedule step the real code could not follow
+	Granted  int                 `json:"gate_granted"`
 }
 
 func goid() int {
@@ -268,6 +439,29 @@ func poolRun(sc poolScenario, self string) (res poolResult) {
 			}
 		}
 	}
+	// scheduler gate (binding S)
+	var gt *gate
+	if len(sc.Schedule) > 0 {
+		gt = newGate()
+		lastOfFile := map[int]int{}
+		for f := range sc.Files {
+			lastOfFile[f+1] = len(sc.Files[f].Jobs[0].Steps)
+		}
+		go func() {
+			for _, st := range sc.Schedule {
+				if !gt.step(st, dir, lastOfFile, 6*time.Second) {
+					break
+				}
+			}
+			gt.releaseAll()
+			// whatever is still gated must be able to finish
+			for f := range sc.Files {
+				for i := range sc.Files[f].Jobs[0].Steps {
+					os.WriteFile(filepath.Join(dir, fmt.Sprintf("release-F%dT%d", f+1, i+1)), []byte("go"), 0o644)
+				}
+			}
+		}()
+	}
 	// tracer
 	var mu sync.Mutex
 	seq := 0
@@ -294,6 +488,9 @@ func poolRun(sc poolScenario, self string) (res poolResult) {
 		n := seq
 		res.Events = append(res.Events, poolEvent{Seq: n, Ev: ev.Kind, Tok: tok, Rule: rule, Gid: gid, Group: ev.Group, Err: ev.Err != nil})
 		mu.Unlock()
+		if gt != nil {
+			gt.arrive(ev.Kind, tok, gid)
+		}
 		if sc.HookDelay > 0 {
 			h := fnv.New32a()
 			fmt.Fprintf(h, "%d/%d/%s/%s", sc.ID, n, ev.Kind, tok)
@@ -345,6 +542,12 @@ func poolRun(sc poolScenario, self string) (res poolResult) {
 			res.Diags[tok] = append(res.Diags[tok], e.Kind+": "+e.Message)
 		}
 	}()
+	if gt != nil {
+		gt.mu.Lock()
+		res.Stuck = gt.stuck
+		res.Granted = gt.steps
+		gt.mu.Unlock()
+	}
 	// let stragglers (tools still alive after the call returned) finish and be logged
 	maxDelay := 0
 	for _, p := range sc.Plan {
@@ -381,12 +584,27 @@ func init() {
 			return err
 		}
 		out := make([]poolResult, 0, len(scs))
+		stuckRun := 0
 		for _, sc := range scs {
+			if stuckRun >= 4 && len(sc.Schedule) > 0 {
+				// the gate does not bind on this tree (several behaviours in a row could not be followed):
+				// run the remaining scenarios free instead of waiting for a time-out each
+				sc.Schedule = nil
+				for k, p := range sc.Plan {
+					p.Gated = false
+					sc.Plan[k] = p
+				}
+			}
 			done := make(chan poolResult, 1)
 			go func() { done <- poolRun(sc, self) }()
 			select {
 			case r := <-done:
 				out = append(out, r)
+				if r.Stuck != "" {
+					stuckRun++
+				} else if len(sc.Schedule) > 0 {
+					stuckRun = 0
+				}
 			case <-time.After(60 * time.Second):
 				out = append(out, poolResult{ID: sc.ID, Cap: runtime.NumCPU(), Panic: "HANG: scenario did not return within 60 s", Diags: map[string][]string{}, Other: []string{}})
 				// the stuck goroutines cannot be recovered: write what we have and stop
